@@ -359,9 +359,11 @@ func (g *gnet) mkTx(nonce uint64, valid bool) *tx.Transaction {
 }
 
 func (g *gnet) submit(n int, t *tx.Transaction) {
+	// logged BEFORE the call: the pool's event may reach txsLoop (and the relays the wire) before AddLocal returns
+	g.log(trace.Ev{"e": "TxSubmit", "n": n, "t": g.regTx(t.Hash(), false)})
 	err := g.nodes[n].st.pool.AddLocal(t)
 	g.touch()
-	g.log(trace.Ev{"e": "TxSubmit", "n": n, "t": g.regTx(t.Hash(), false), "ok": err == nil, "err": fmt.Sprint(err)})
+	g.log(trace.Ev{"e": "TxVerdict", "n": n, "t": g.regTx(t.Hash(), false), "ok": err == nil, "err": fmt.Sprint(err)})
 }
 
 // finish dumps marks, chain and pool of every node with the network at rest, then tears the run down.
